@@ -1,0 +1,13 @@
+//go:build !verif
+// +build !verif
+
+package nutsdb
+
+// verifFS is the verification hook called before every file mutation.
+// Without the `verif` build tag it is a no-op.
+func verifFS(op, path string, off int64, data []byte) error { return nil }
+
+// verifMMapRegister / verifMMapPath associate a mapped region with its path.
+func verifMMapRegister(m []byte, path string) {}
+
+func verifMMapPath(m []byte) string { return "" }
